@@ -300,6 +300,45 @@ func runC09(prop string, res *Result, pool *DrvPool, r *Rng) {
 			res.Sample(map[string]interface{}{"stream": clip(data)})
 		}
 	}
+	// a line longer than the reader's buffer, followed by much more than a buffer of further input (text
+	// and a dump), delivered in pieces larger than the buffer: whatever room a Read is offered, nothing
+	// behind the long line may be lost
+	for _, L := range []int{16385, 20000, 40000, 70000} {
+		var sb strings.Builder
+		sb.WriteString("intro\n" + strings.Repeat("x", L) + "\n")
+		for k := 0; k < 400+r.Intn(200); k++ {
+			fmt.Fprintf(&sb, "filler line %d after the long line ........................................\n", k)
+		}
+		sb.WriteString("goroutine 1 [running]:\nmain.f(0x1)\n\t/a/b.go:12 +0x1\n\ngoroutine 2 [select]:\nmain.g()\n\t/a/c.go:3 +0x2\n\ntrailer\n")
+		data := sb.String()
+		ref := implScan(&ScanOp{Op: "scan", Data: hb(data), Sched: []int{1000}, Final: "eof"})
+		// reference by small pieces: every Read returns at most 1000 bytes
+		small := make([]int, len(data)/1000+2)
+		for j := range small {
+			small[j] = 1000
+		}
+		ref = implScan(&ScanOp{Op: "scan", Data: hb(data), Sched: small, Final: "eof"})
+		for _, chunk := range []int{0, 16384, 16385, 40000, 1 << 20} {
+			var sched []int
+			if chunk != 0 {
+				sched = make([]int, len(data)/chunk+2)
+				for j := range sched {
+					sched[j] = chunk
+				}
+			} else {
+				sched = []int{}
+			}
+			for _, wd := range []bool{false, true} {
+				op := &ScanOp{Op: "scan", Data: hb(data), Sched: sched, Final: "eof", WithData: wd}
+				got := implScan(op)
+				res.Eval(fmt.Sprintf("longline|%d|%d|%v", L, chunk, wd), true)
+				res.Count("long-line-then-much-more")
+				if d := sameScan(&ref, &got); d != "" {
+					res.Violation(Finding{Stream: "scan", What: fmt.Sprintf("a %d-byte line followed by %d more bytes: the result with deliveries of up to %d bytes (0 = whatever a Read has room for) differs from the result with deliveries of 1000 bytes: %s", L, len(data)-L-7, chunk, d), Op: map[string]interface{}{"long_line_bytes": L, "total_bytes": len(data), "delivery": chunk, "with_data": wd}})
+				}
+			}
+		}
+	}
 	// exhaustive: every chunking of short inputs
 	shorts := []string{"goroutine 1 [r]:\nm.f()\n\ta.go:1\n", "x\n==================\ny", "goroutine 1 [r]:\n\nz"}
 	maxLen := countN(res.Tier, 11, 15)
